@@ -56,7 +56,7 @@ pub struct Case {
     pub vars: Vec<u8>,
 }
 
-const HOLD: [&str; 3] = ["fe.reply_wait", "be_req.reply_wait", "gpu.reply_wait"];
+const HOLD: [&str; 6] = ["fe.after_send", "be_req.after_send", "gpu.after_send", "fe.reply_wait", "be_req.reply_wait", "gpu.reply_wait"];
 const BOUND: Duration = Duration::from_secs(10);
 
 #[derive(Clone)]
@@ -793,7 +793,7 @@ fn perms(n: usize) -> Vec<Vec<u8>> {
 pub fn run(ctx: &mut Ctx) {
     ctx.rule = "controlled runs: endpoint in {Frontend, Backend proxy, GpuBackend} x every op mix of 2 (quick) and 3 (thorough: all; quick: sampled) \
                 callers over {reply-bearing, second reply-bearing code, acknowledged, fire-and-forget} x every release order of parked callers; the \
-                first caller is parked between 'request written' and 'reply read', the others are started and allowed to settle (parked / finished / \
+                first caller is parked at 'request written' (after_send) and again right before 'reply read' (reply_wait), the others are started and allowed to settle (parked / finished / \
                 asleep on the lock), the raw peer answers each request with that request's identity. Plus uncontrolled stress (8 threads x 200 mixed \
                 calls per endpoint) and a stress over all 27 answer-awaiting Frontend operations (8 threads x 4000 calls, with and without acknowledgements). Plus, per endpoint and answer-awaiting call kind, the peer disconnecting / answering with another message / sending half a header while the answer is awaited: the call must return an error and a later call on another clone must return. Non-trivial = a run in which another caller attempted its call while the first was parked at reply_wait, a fault case, a stress configuration."
         .into();
